@@ -194,6 +194,9 @@ def run_property(pid, tier, repo, seed, write_evidence=True, only=None):
     comps = [c for c in P["components"] if tier == "thorough" or not c.get("thorough_only")]
     if only:
         comps = [c for c in comps if c.get("unit") in only or c.get("name") in only]
+    if not comps:
+        print(f"{pid}: no component selected (vacuous run)")
+        return 2
     results = []
     # vx components are cheap and run in a thread pool; kx/bx components manage their own parallelism
     with cf.ThreadPoolExecutor(max_workers=8) as ex:
